@@ -13,10 +13,10 @@
   `expr_eval_correct_partial`      `target = e` / `target op= r` through the templates = `assign target
                                    (evalTmp env e)`, by induction over the tree (lemmas `evalZ_correct`,
                                    `evalQ_correct`), for mpz and mpq targets and mixed mpz/mpq trees.
-  `cmp_eval_correct_partial`       comparisons / `cmp` on mpz-typed operands.
-  Not covered by theorems (correspondence only): mpf_class, comparisons with mpq operands, `sgn`, I/O.
+  `cmp_eval_correct_partial`, `sgn_eval_correct_partial`   comparisons / `cmp` / `sgn` on mpz and mpq operands.
+  Not covered by theorems (correspondence only): mpf_class, increments, constructors from strings/numbers, I/O.
 -/
-import MpirProofs.Lemmas.CxxQ2
+import MpirProofs.Lemmas.CxxCmp
 namespace Mpir.Cxx
 
 /-- **fnobj_spec** for the binary mpz function objects (see `fnBinZ_spec` for the proof). -/
@@ -169,85 +169,45 @@ example : (execAssign false 4 .q 0 (.bin .sub (.zv 0) (.binR .mul (.qv 0) (.si 2
 example : (execAssign true 4 .z 1 (.bin .mul (.qv 0) (.qv 0))
     ⟨fun l => match l with | .num 0 => -7 | .den 0 => 2 | _ => 1⟩).map (· (.v 1)) = some 12 := by decide +kernel
 
-/-! ### comparisons, `cmp`, `sgn` on mpz-typed operands -/
+/-! ### comparisons, `cmp`, `sgn` -/
 
-def Opnd.zOk (K : Nat) : Opnd → Prop
-  | .ex e => e.ty = .z ∧ e.wt = true ∧ e.zbelow K
-  | .bi c => c.ok = true
-
-theorem opndRat_ex_z (h : Heap) (e : E) (hty : e.ty = .z) :
-    opndRat h.abs (.ex e) = (evalTmpZ (fun i => h (.v i)) e).map fun x => ((x : Int) : Rat) := by
-  simp only [opndRat, evalTmp_z _ e hty, Option.map_map]
-  rfl
-
-/-- **Comparisons equal the C comparison of the temporaries** (`== != < <= > >=`, `cmp`; `_partial`: mpz-typed
-    operands and built-ins on either side — comparisons with mpq/mpf operands are tied by the correspondence
-    run only): the `const&` binding strategy (no temporary for an
-    `mpz_class` operand, one temporary per expression operand) followed by the
-    `__gmp_binary_equal/less/greater/__gmp_cmp_function` overload gives exactly
-    `execTmp (.cmp o a b)`, including raising when an operand raises. -/
-theorem cmp_eval_correct_partial (cst : Bool) (K : Nat) (o : Cmp) (a b : Opnd) (h : Heap)
-    (ha : a.zOk K) (hb : b.zOk K) (hab : ¬(∃ c c', a = .bi c ∧ b = .bi c')) :
-    (execCmpZ cst K o a b h).map Res.int = execTmp h.abs (.cmp o a b) := by
-  have B := bindZ_correct cst (evalZ_correct cst)
+theorem Opnd.zOk_of_ok {K : Nat} {h : Heap} {a : Opnd} (ha : a.ok K h) (hz : a.isZ = true) : a.zOk K := by
   cases a with
-  | ex ea =>
-    obtain ⟨hta, hwa, hba⟩ := ha
-    have Ba := B ea hta hwa K h hba
-    cases b with
-    | ex eb =>
-      obtain ⟨htb, hwb, hbb⟩ := hb
-      simp only [execCmpZ, execTmp, opndRat_ex_z h ea hta, opndRat_ex_z h eb htb]
-      cases hra : evalTmpZ (fun i => h (.v i)) ea with
-      | none => rw [hra] at Ba; simp [Ba]
-      | some x =>
-        rw [hra] at Ba
-        obtain ⟨la, h1, e1, hx, hla, hfr1⟩ := Ba
-        have hag : ∀ i, i < K → h1 (.v i) = h (.v i) := fun i hi => hfr1 _ (by simpa [ZLoc.below] using hi)
-        have Bb := B eb htb hwb (K + 1) h1 (E.zbelow_mono (by omega) _ hbb)
-        rw [evalTmpZ_frame (k := K) hag eb hbb] at Bb
-        simp only [e1, Option.bind_some]
-        cases hrb : evalTmpZ (fun i => h (.v i)) eb with
-        | none => rw [hrb] at Bb; simp [Bb]
-        | some y =>
-          rw [hrb] at Bb
-          obtain ⟨lb, h2, e2, hy, _, hfr2⟩ := Bb
-          simp only [e2, Option.bind_some]
-          rw [fnCmpZ_spec o _ _ h2 (by simp [ZArg.isBi])]
-          simp [argQ, hy, hfr2 la hla, hx]
-    | bi c =>
-      simp only [execCmpZ, execTmp, opndRat_ex_z h ea hta]
-      simp only [opndRat]
-      cases hra : evalTmpZ (fun i => h (.v i)) ea with
-      | none => rw [hra] at Ba; simp [Ba]
-      | some x =>
-        rw [hra] at Ba
-        obtain ⟨la, h1, e1, hx, hla, hfr1⟩ := Ba
-        simp only [e1, Option.bind_some]
-        rw [fnCmpZ_spec o _ _ h1 (by simp [ZArg.isBi])]
-        simp only [argQ, hx, Option.bind_some, Option.map_some]
-        cases biRat c <;> simp
-  | bi c =>
-    cases b with
-    | bi c' => exact absurd ⟨c, c', rfl, rfl⟩ hab
-    | ex eb =>
-      obtain ⟨htb, hwb, hbb⟩ := hb
-      have Bb := B eb htb hwb K h hbb
-      simp only [execCmpZ, execTmp, opndRat_ex_z h eb htb]
-      simp only [opndRat]
-      cases hrb : evalTmpZ (fun i => h (.v i)) eb with
-      | none => rw [hrb] at Bb; simp only [Bb]; cases biRat c <;> simp
-      | some y =>
-        rw [hrb] at Bb
-        obtain ⟨lb, h1, e1, hy, _, hfr1⟩ := Bb
-        simp only [e1, Option.bind_some]
-        rw [fnCmpZ_spec o _ _ h1 (by simp [ZArg.isBi])]
-        simp only [argQ, hy]
-        cases biRat c <;> simp
+  | ex e => exact ⟨by simpa [Opnd.isZ] using hz, ha.1, ha.2.1⟩
+  | bi c => exact ha
+
+/-- **Comparisons equal the C comparison of the temporaries** (`== != < <= > >=`, `cmp`; `_partial`: mpz and mpq
+    operands, sub-expressions and built-ins on either side — mpf is correspondence-only): the `const&` binding
+    strategy of mpirxx.h:3091–3118 (no temporary for an operand that already is an object of the comparison type,
+    one temporary per other operand, an mpz operand of a mixed comparison converted to mpq) followed by the
+    `__gmp_binary_equal/less/greater/__gmp_cmp_function` overload gives exactly `execTmp (.cmp o a b)` — the
+    comparison of the exact values — and raises exactly when an operand raises. -/
+theorem cmp_eval_correct_partial (cst : Bool) (K : Nat) (o : Cmp) (a b : Opnd) (h : Heap)
+    (ha : a.ok K h) (hb : b.ok K h) (hab : ¬(∃ c c', a = .bi c ∧ b = .bi c')) :
+    (execCmp cst K o a b h).map Res.int = execTmp h.abs (.cmp o a b) := by
+  unfold execCmp
+  by_cases hz : (a.isZ && b.isZ) = true
+  · rw [if_pos hz]
+    simp only [Bool.and_eq_true] at hz
+    exact execCmpZ_correct cst K o a b h (Opnd.zOk_of_ok ha hz.1) (Opnd.zOk_of_ok hb hz.2) hab
+  · rw [if_neg hz]
+    exact execCmpQ_correct cst K o a b h ha hb hab
+
+/-- **`sgn(e)` is the sign of the temporary** (`_partial`: mpz and mpq). -/
+theorem sgn_eval_correct_partial (cst : Bool) (K : Nat) (a : E) (h : Heap)
+    (hwt : a.wt = true) (hz : a.zbelow K) (hq : a.qbelow K) (hc : a.canon h) :
+    (execSgn cst K a h).map Res.int = execTmp h.abs (.sgn a) :=
+  execSgn_correct cst K a h hwt hz hq hc
 
 -- non-vacuity: `(z0 + z1) < 2.5` with z0 = 1, z1 = 1 is true (mpz_cmp_d does not truncate the double); `-3 > z0 * z1`
 example : execCmpZ false 4 .lt (.ex (.bin .add (.zv 0) (.zv 1))) (.bi (.d 0x4004000000000000)) ⟨fun _ => 1⟩ = some 1 := by decide
 example : execCmpZ true 4 .gt (.bi (.si (-3))) (.ex (.bin .mul (.zv 0) (.zv 1))) ⟨fun l => if l = .v 0 then -2 else 2⟩ = some 1 := by decide
 
+
+-- `q0 * 2 >= z0` with q0 = 3/2, z0 = 3 (mixed: the mpz operand is converted to an mpq temporary)
+example : execCmp false 4 .ge (.ex (.binR .mul (.qv 0) (.si 2))) (.ex (.zv 0))
+    ⟨fun l => match l with | .v 0 => 3 | .num 0 => 3 | .den 0 => 2 | _ => 1⟩ = some 1 := by decide +kernel
+example : execSgn false 4 (.bin .sub (.qv 0) (.zv 0)) ⟨fun l => match l with | .v 0 => 3 | .num 0 => 3 | .den 0 => 2 | _ => 1⟩ = some (-1) := by
+  decide +kernel
 
 end Mpir.Cxx
